@@ -47,7 +47,7 @@ def equivalent_layers(h, p, L, w=None):
         w_el = numpy.zeros(L)
 
     hstep = (h.max()-h.min())/L
-    alt_bins = numpy.arange(h.min(), h.max(), hstep)
+    alt_bins = h.min() + hstep * numpy.arange(L)
     ix = numpy.digitize(h, alt_bins)
     for i in range(L):
         ix_tmp = ix==i+1
